@@ -304,27 +304,39 @@ def verify_many(spec: Spec, keys, axioms, timeout_ms=10000, procs=16) -> list:
     if todo:
         pool = multiprocessing.get_context('fork').Pool(procs)
         try:
-            pending = [(k, pool.apply_async(_worker_path, ((k, []),))) for k in todo]
-            last_progress = time.time()
+            limit = max(300.0, 15.0 * timeout_ms / 1000.0)      # wall-clock limit of one path task (symbolic execution + its obligations)
+            pending = [(k, pool.apply_async(_worker_path, ((k, []),)), [], time.time(), 0) for k in todo]
             submitted = {k: 1 for k in todo}
             notes = {k: set() for k in todo}
             dropped = {k: set() for k in todo}
             while pending:
-                ready = [(k, h) for (k, h) in pending if h.ready()]
+                ready = [e for e in pending if e[1].ready()]
                 if not ready:
                     pending[0][1].wait(0.02)
-                    if time.time() - last_progress > 900:
-                        for k, _h in pending:
-                            results[k].refused = results[k].refused or 'worker lost or stuck for 900 s (path task never returned)'
-                        break
+                    now = time.time()
+                    late = [e for e in pending if now - e[3] > limit]
+                    if late:
+                        # a worker died (the task is lost) or a solver call ignores its timeout: resubmit once, then give up on that path
+                        lids = set(id(e[1]) for e in late)
+                        pending = [e for e in pending if id(e[1]) not in lids]
+                        for key, h, pfx, t_sub, attempt in late:
+                            import sys as _sys
+                            print('pyvc: path task of %s (prefix %r) exceeded %.0f s, attempt %d' % (key, pfx, limit, attempt), file=_sys.stderr)
+                            if attempt == 0:
+                                pending.append((key, pool.apply_async(_worker_path, ((key, pfx),)), pfx, time.time(), 1))
+                            else:
+                                results[key].refused = results[key].refused or 'a path task did not return within %.0f s twice (worker lost or solver overrun)' % limit
                     continue
-                last_progress = time.time()
-                rs = set(id(h) for _, h in ready)
-                pending = [(k, h) for (k, h) in pending if id(h) not in rs]
-                for key, h in ready:
+                rs = set(id(e[1]) for e in ready)
+                pending = [e for e in pending if id(e[1]) not in rs]
+                for key, h, _pfx, _t, _att in ready:
                     res = results[key]
                     C = spec.functions[key]
-                    out = h.get()
+                    try:
+                        out = h.get()
+                    except Exception as e:
+                        res.refused = res.refused or 'worker error: %r' % (e,)
+                        continue
                     res.paths += 1
                     res.time += out.get('time', 0.0)
                     if out['refused'] and not res.refused:
@@ -345,7 +357,7 @@ def verify_many(spec: Spec, keys, axioms, timeout_ms=10000, procs=16) -> list:
                             res.refused = 'path budget exceeded: more than %d paths' % C.path_budget
                             break
                         submitted[key] += 1
-                        pending.append((key, pool.apply_async(_worker_path, ((key, pfx),))))
+                        pending.append((key, pool.apply_async(_worker_path, ((key, pfx),)), pfx, time.time(), 0))
             for k in todo:
                 results[k].notes = sorted(notes[k])
                 results[k].dropped = sorted(dropped[k])
